@@ -9,16 +9,20 @@ acknowledgements, applies, distributes the commit index, and every voter applies
 -/
 namespace PSO.Raft
 
-/-- The goal state of C05 on the voters `0 … N-1`: one leader, equal logs, everything committed and
-applied everywhere. -/
-structure Converged (N : Nat) (s : State) (c : Nat) : Prop where
+/-- The nodes a convergence statement talks about: the voters `0 … N-1` and a list of read-only
+nodes (observers; ids `≥ N`). -/
+def InScope (N : Nat) (obs : List Nat) (d : Nat) : Prop := d < N ∨ d ∈ obs
+
+/-- The goal state of C05 on the voters `0 … N-1` and the observers `obs`: one leader, equal logs,
+everything committed and applied everywhere. -/
+structure Converged (N : Nat) (obs : List Nat) (s : State) (c : Nat) : Prop where
   cN : c < N
   ldr : (s.nodes c).role = .leader
-  flw : ∀ d, d < N → d ≠ c → (s.nodes d).role = .follower
-  term_eq : ∀ d, d < N → (s.nodes d).term = (s.nodes c).term
-  log_eq : ∀ d, d < N → (s.nodes d).log = (s.nodes c).log
-  commit_eq : ∀ d, d < N → (s.nodes d).commit = (s.nodes c).log.length - 1
-  applied_eq : ∀ d, d < N → (s.nodes d).applied = (s.nodes c).log.length - 1
+  flw : ∀ d, InScope N obs d → d ≠ c → (s.nodes d).role = .follower
+  term_eq : ∀ d, InScope N obs d → (s.nodes d).term = (s.nodes c).term
+  log_eq : ∀ d, InScope N obs d → (s.nodes d).log = (s.nodes c).log
+  commit_eq : ∀ d, InScope N obs d → (s.nodes d).commit = (s.nodes c).log.length - 1
+  applied_eq : ∀ d, InScope N obs d → (s.nodes d).applied = (s.nodes c).log.length - 1
 
 theorem noFault_of_forall {as : List Action} (h : as.all (fun a => !a.isFault) = true) : NoFault as := by
   intro a ha
@@ -99,49 +103,60 @@ theorem heartbeat_block {N : Nat} {s : State} (hR : Reachable N s) {c d : Nat} (
 theorem range_quorum {N : Nat} (hN : 0 < N) : IsQuorum N (List.range N) :=
   ⟨List.nodup_range, fun q hq => List.mem_range.mp hq, by simp; omega⟩
 
-theorem round {N : Nat} {s : State} (hR : Reachable N s) {c : Nat} (hc : c < N)
-    (hr : (s.nodes c).role = .leader)
-    (hterm : ∀ d, d < N → (s.nodes d).term = (s.nodes c).term)
+theorem round {N : Nat} {s : State} (obs : List Nat) (hobs : ∀ o ∈ obs, N ≤ o) (hR : Reachable N s)
+    {c : Nat} (hc : c < N) (hr : (s.nodes c).role = .leader)
+    (hterm : ∀ d, InScope N obs d → (s.nodes d).term ≤ (s.nodes c).term)
     (hlast : termAt (s.nodes c).log ((s.nodes c).log.length - 1) = (s.nodes c).term)
     (hcm : (s.nodes c).commit < (s.nodes c).log.length - 1) :
-    ∃ as s', NoFault as ∧ run N s as = some s' ∧ Converged N s' c ∧
+    ∃ as s', NoFault as ∧ run N s as = some s' ∧ Converged N obs s' c ∧
       (s'.nodes c).log = (s.nodes c).log ∧ (s'.nodes c).term = (s.nodes c).term := by
   obtain ⟨L, hL⟩ : ∃ L, (s.nodes c).log = L := ⟨_, rfl⟩
   obtain ⟨T, hT⟩ : ∃ T, (s.nodes c).term = T := ⟨_, rfl⟩
   rw [hL] at hlast hcm ⊢
   rw [hT] at hlast hterm ⊢
-  -- phase A: synchronise every other voter and collect the acknowledgements
+  have htargets : ∀ d ∈ others N c ++ obs, InScope N obs d ∧ d ≠ c := by
+    intro d hd
+    rcases List.mem_append.mp hd with h | h
+    · exact ⟨Or.inl (mem_others.mp h).1, (mem_others.mp h).2⟩
+    · exact ⟨Or.inr h, by have := hobs d h; omega⟩
+  have hcover : ∀ d, InScope N obs d → d ≠ c → d ∈ others N c ++ obs := by
+    intro d hd hdc
+    rcases hd with h | h
+    · exact List.mem_append_left _ (mem_others.mpr ⟨h, hdc⟩)
+    · exact List.mem_append_right _ h
+  -- phase A: synchronise every other voter / observer and collect the acknowledgements
   let IA : List Nat → State → Prop := fun rest s1 =>
     Reachable N s1 ∧ (s1.nodes c).role = .leader ∧ (s1.nodes c).term = T ∧ (s1.nodes c).log = L ∧
     (s1.nodes c).commit = (s.nodes c).commit ∧ (s1.nodes c).applied = (s.nodes c).applied ∧
-    (∀ d, d < N → (s1.nodes d).term = T) ∧ (∀ d ∈ rest, d < N ∧ d ≠ c) ∧
-    (∀ d, d < N → d ≠ c → d ∉ rest → (s1.nodes d).log = L ∧ L.length - 1 ≤ (s1.nodes c).matchIdx d)
-  have hA0 : IA (others N c) s :=
-    ⟨hR, hr, hT, hL, rfl, rfl, hterm, fun d hd => mem_others.mp hd,
-      fun d h1 h2 h3 => absurd (mem_others.mpr ⟨h1, h2⟩) h3⟩
-  obtain ⟨asA, sA, hnfA, hrunA, hRA, hrA, hTA, hLA, hcmA, hapA, htermA, _, hdoneA⟩ :=
+    (∀ d, InScope N obs d → (s1.nodes d).term ≤ T) ∧ (∀ d ∈ rest, InScope N obs d ∧ d ≠ c) ∧
+    (∀ d, InScope N obs d → d ≠ c → d ∉ rest →
+      (s1.nodes d).log = L ∧ (s1.nodes d).term = T ∧ L.length - 1 ≤ (s1.nodes c).matchIdx d)
+  have hA0 : IA (others N c ++ obs) s :=
+    ⟨hR, hr, hT, hL, rfl, rfl, hterm, htargets, fun d h1 h2 h3 => absurd (hcover d h1 h2) h3⟩
+  obtain ⟨asA, sA, hnfA, hrunA, hRA, hrA, hTA, hLA, hcmA, hapA, _, _, hdoneA⟩ :=
     run_foreach (N := N) IA (by
       intro d rest s1 ⟨hR1, hr1, hT1, hL1, hcm1, hap1, hterm1, hrest1, hdone1⟩
-      obtain ⟨hdN, hdc⟩ := hrest1 d List.mem_cons_self
+      obtain ⟨hdS, hdc⟩ := hrest1 d List.mem_cons_self
       obtain ⟨as, s2, hnf, hrun, hR2, hlog2, hterm2, _, _, _, hfr2, mi, hc2, hmi, hmono⟩ :=
-        sync_block hR1 hc hdc hr1 (by rw [hterm1 d hdN, hT1]) (by rw [hL1, hT1]; exact hlast)
+        sync_block hR1 hc hdc hr1 (by rw [hT1]; exact hterm1 d hdS) (by rw [hL1, hT1]; exact hlast)
       refine ⟨as, s2, hnf, hrun, hR2, by rw [hc2]; exact hr1, by rw [hc2]; exact hT1, by rw [hc2]; exact hL1,
         by rw [hc2]; exact hcm1, by rw [hc2]; exact hap1, ?_, fun x hx => hrest1 x (List.mem_cons_of_mem _ hx), ?_⟩
       · intro x hx
         by_cases hxd : x = d
         · subst hxd; rw [hterm2, hT1]
         · by_cases hxc : x = c
-          · subst hxc; rw [hc2]; exact hT1
+          · subst hxc; rw [hc2, hT1]
           · rw [hfr2 x hxd hxc]; exact hterm1 x hx
-      · intro x hxN hxc hxr
+      · intro x hxS hxc hxr
         by_cases hxd : x = d
         · subst hxd
-          refine ⟨by rw [hlog2, hL1], ?_⟩
+          refine ⟨by rw [hlog2, hL1], by rw [hterm2, hT1], ?_⟩
           rw [hc2]; simp only []; rw [← hL1]; exact hmi
-        · obtain ⟨h1, h2⟩ := hdone1 x hxN hxc (by simp [hxd, hxr])
-          refine ⟨by rw [hfr2 x hxd hxc]; exact h1, ?_⟩
-          rw [hc2]; exact Nat.le_trans h2 (hmono x)) (others N c) s hA0
-  have hdoneA' : ∀ d, d < N → d ≠ c → (sA.nodes d).log = L ∧ L.length - 1 ≤ (sA.nodes c).matchIdx d :=
+        · obtain ⟨h1, h2, h3⟩ := hdone1 x hxS hxc (by simp [hxd, hxr])
+          refine ⟨by rw [hfr2 x hxd hxc]; exact h1, by rw [hfr2 x hxd hxc]; exact h2, ?_⟩
+          rw [hc2]; exact Nat.le_trans h3 (hmono x)) (others N c ++ obs) s hA0
+  have hdoneA' : ∀ d, InScope N obs d → d ≠ c →
+      (sA.nodes d).log = L ∧ (sA.nodes d).term = T ∧ L.length - 1 ≤ (sA.nodes c).matchIdx d :=
     fun d h1 h2 => hdoneA d h1 h2 (by simp)
   -- phase B: commit the last entry, apply on the leader
   have hinvA := inv_reachable hRA
@@ -153,7 +168,7 @@ theorem round {N : Nat} {s : State} (hR : Reachable N s) {c : Nat} (hc : c < N)
       intro q hq
       by_cases hqc : q = c
       · exact Or.inl hqc
-      · exact Or.inr (hdoneA' q (List.mem_range.mp hq) hqc).2)
+      · exact Or.inr (hdoneA' q (Or.inl (List.mem_range.mp hq)) hqc).2.2)
   have hapLe : (s.nodes c).applied ≤ L.length - 1 := by
     have := (inv_reachable hR).a c; omega
   obtain ⟨sB, hrunB2, hfrB, hnB, _, _⟩ := run_apply (N := N) c (L.length - 1 - (s.nodes c).applied)
@@ -169,23 +184,24 @@ theorem round {N : Nat} {s : State} (hR : Reachable N s) {c : Nat} (hc : c < N)
   let IC : List Nat → State → Prop := fun rest s1 =>
     Reachable N s1 ∧ (s1.nodes c).role = .leader ∧ (s1.nodes c).term = T ∧ (s1.nodes c).log = L ∧
     (s1.nodes c).commit = L.length - 1 ∧ (s1.nodes c).applied = L.length - 1 ∧
-    (∀ d, d < N → (s1.nodes d).term = T ∧ (s1.nodes d).log = L) ∧ (∀ d ∈ rest, d < N ∧ d ≠ c) ∧
-    (∀ d, d < N → d ≠ c → d ∉ rest →
+    (∀ d, InScope N obs d → (s1.nodes d).term = T ∧ (s1.nodes d).log = L) ∧
+    (∀ d ∈ rest, InScope N obs d ∧ d ≠ c) ∧
+    (∀ d, InScope N obs d → d ≠ c → d ∉ rest →
       (s1.nodes d).role = .follower ∧ (s1.nodes d).commit = L.length - 1 ∧ (s1.nodes d).applied = L.length - 1)
-  have hC0 : IC (others N c) sB := by
+  have hC0 : IC (others N c ++ obs) sB := by
     refine ⟨hRB, by rw [hcB]; exact hrA, by rw [hcB]; exact hTA, by rw [hcB]; exact hLA, by rw [hcB], by rw [hcB],
-      ?_, fun d hd => mem_others.mp hd, fun d h1 h2 h3 => absurd (mem_others.mpr ⟨h1, h2⟩) h3⟩
+      ?_, htargets, fun d h1 h2 h3 => absurd (hcover d h1 h2) h3⟩
     intro d hd
     by_cases hdc : d = c
     · subst hdc; rw [hcB]; exact ⟨hTA, hLA⟩
-    · rw [hoB d hdc]; exact ⟨htermA d hd, (hdoneA' d hd hdc).1⟩
+    · rw [hoB d hdc]; exact ⟨(hdoneA' d hd hdc).2.1, (hdoneA' d hd hdc).1⟩
   obtain ⟨asC, sC, hnfC, hrunC, hRC, hrC, hTC, hLC, hcmC, hapC, hallC, _, hdoneC⟩ :=
     run_foreach (N := N) IC (by
       intro d rest s1 ⟨hR1, hr1, hT1, hL1, hcm1, hap1, hall1, hrest1, hdone1⟩
-      obtain ⟨hdN, hdc⟩ := hrest1 d List.mem_cons_self
+      obtain ⟨hdS, hdc⟩ := hrest1 d List.mem_cons_self
       obtain ⟨as, s2, hnf, hrun, hR2, hlog2, hterm2, hrole2, hcm2, hap2, hfr2⟩ :=
-        heartbeat_block hR1 hc hdc hr1 (by rw [(hall1 d hdN).1, hT1])
-          (by rw [(hall1 d hdN).2, hL1]) (by rw [hcm1, hL1])
+        heartbeat_block hR1 hc hdc hr1 (by rw [(hall1 d hdS).1, hT1])
+          (by rw [(hall1 d hdS).2, hL1]) (by rw [hcm1, hL1])
       have hc2 : s2.nodes c = s1.nodes c := hfr2 c (fun e => hdc e.symm)
       refine ⟨as, s2, hnf, hrun, hR2, by rw [hc2]; exact hr1, by rw [hc2]; exact hT1, by rw [hc2]; exact hL1,
         by rw [hc2]; exact hcm1, by rw [hc2]; exact hap1, ?_, fun x hx => hrest1 x (List.mem_cons_of_mem _ hx), ?_⟩
@@ -193,10 +209,10 @@ theorem round {N : Nat} {s : State} (hR : Reachable N s) {c : Nat} (hc : c < N)
         by_cases hxd : x = d
         · subst hxd; exact ⟨by rw [hterm2, hT1], by rw [hlog2, hL1]⟩
         · rw [hfr2 x hxd]; exact hall1 x hx
-      · intro x hxN hxc hxr
+      · intro x hxS hxc hxr
         by_cases hxd : x = d
         · subst hxd; exact ⟨hrole2, by rw [hcm2, hL1], by rw [hap2, hL1]⟩
-        · rw [hfr2 x hxd]; exact hdone1 x hxN hxc (by simp [hxd, hxr])) (others N c) sB hC0
+        · rw [hfr2 x hxd]; exact hdone1 x hxS hxc (by simp [hxd, hxr])) (others N c ++ obs) sB hC0
   have hrun : run N s (asA ++ ((.advanceCommit c (L.length - 1) ::
       List.replicate (L.length - 1 - (s.nodes c).applied) (.apply c)) ++ asC)) = some sC :=
     run_append_some hrunA (run_append_some hrunB hrunC)
